@@ -249,6 +249,35 @@ type Nested struct {
 	M  map[string][]map[int]string
 }
 
+// embedded structs away from offset 0 (after other fields, nested, between fields) and fields of
+// the interface type error (nil and not nil)
+type EmbMid struct {
+	A string
+	Inner
+	B int
+}
+type EmbBase struct {
+	U uint8
+	W []int
+	S string
+}
+type EmbIn struct {
+	Q int64
+	EmbBase
+	R *Inner
+}
+type EmbDeep struct {
+	N int
+	EmbIn
+	T float64
+}
+type ErrF struct {
+	A error
+	B int
+	C error
+	D []error
+}
+
 var registry = map[string]reflect.Type{}
 
 // aliases: types registered with hprose under a class name that differs from the Go type name
@@ -263,6 +292,7 @@ func init() {
 		Tagged{}, Inner{}, Outer{}, Shared{}, One{}, OneS{}, OneP{}, Cx{}, Deep{}, Lst{}, Strs{}, BBTail{},
 		Empty{}, Nested{}, Member{},
 		MyU32(0), MyU64(0), MyU8(0), MyI64(0), MyF32(0), OneM{}, OneMM{}, OneA1{}, OnePS{}, Gadget{},
+		EmbMid{}, EmbBase{}, EmbIn{}, EmbDeep{}, ErrF{},
 	} {
 		reg(v)
 	}
